@@ -31,30 +31,9 @@ def fm_macro(specs):
         }} }} }}"""
 
 
-# units added afterwards through the public unit! macro ("every unit of every quantity" includes those a user adds)
-ADDED = """
-pub mod add_length {
-    unit! {
-        system: uom::si;
-        quantity: uom::si::length;
-        @smoot: 1.702_E0; "smt", "smoot", "smoots";
-    }
-}
-pub mod add_temperature {
-    unit! {
-        system: uom::si;
-        quantity: uom::si::thermodynamic_temperature;
-        @degree_reaumur: 1.25_E0, 2.185_2_E2; "°Ré", "degree Réaumur", "degrees Réaumur";
-    }
-}
-pub use add_length::smoot;
-pub use add_temperature::degree_reaumur;
-"""
-ADDED_UNITS = [
-    ("length", {"name": "smoot", "abbr": "smt", "sing": "smoot", "plur": "smoots", "coef": {"lit": ["1702", -3]}, "const": None, "coef_q": ["1702", "1000"], "added": True}),
-    ("thermodynamic_temperature", {"name": "degree_reaumur", "abbr": "°Ré", "sing": "degree Réaumur", "plur": "degrees Réaumur", "coef": {"lit": ["125", -2]},
-                                   "const": {"lit": ["21852", -2]}, "coef_q": ["5", "4"], "added": True}),
-]
+from . import added as AD
+ADDED = AD.PRELUDE
+ADDED_UNITS = AD.UNITS
 
 
 def unit_slot(q, u, bs, ty):
